@@ -97,4 +97,10 @@ CLAIMED["C18"] = (
     "candidates are captured by a host callback inside the loss so the history is judged without reproducing rex's key splitting.",
     "evosax internals trusted; one known finding (OpenES + NaN loss => NaN candidates) is listed in known_findings.json and reported as KNOWN-FINDING", "DESIGN.md §4 C18",
 )
+CLAIMED["C19"] = (
+    PBT + ": pure-Python reference models of every wrapper compared step by step over generated reward/termination/truncation scripts, actions and stackings; differential Environment.step vs graph.step",
+    "Generated scripts, action values (incl. +-1e6), bounds, batch sizes and wrapper stackings (AutoReset fixed/fresh, Log, Squash/Clip, Vec, NormalizeObs, "
+    "NormalizeReward) driven over multi-step histories on a scripted environment; plus Environment.step on a real compiled graph.",
+    "wrappers are generic over the wrapped environment (duck-typed scripted env); only the stacking order used by rex.ppo is generated", "DESIGN.md §4 C19",
+)
 NOT_APPLICABLE = {}
